@@ -306,7 +306,7 @@ def build(ctx):
                     e3, s3 = tm.subst(e2, ab), tm.subst(s2, ab)
                     pjv = tm.var("pj")
                     e3, s3 = tm.subst(e3, {PJ: pjv}), tm.subst(s3, {PJ: pjv})
-                    v = be.prove_equal_cas(e3, s3, {"T": GAS_BOX["T"], "g": GAS_BOX["g"], "Tc": GAS_BOX["Tpc"], "Pc": GAS_BOX["Ppc"], "pj": (10.0, 14000.0), "N2": (0, 0.1), "H2S": (0, 0.1), "CO2": (0, 0.1)}, seed=ctx.seed, npoints=6)
+                    v = be.prove_equal_cas(e3, s3, {"T": GAS_BOX["T"], "g": GAS_BOX["g"], "Tc": GAS_BOX["Tpc"], "Pc": GAS_BOX["Ppc"], "pj": (10.0, 40000.0), "N2": (0, 0.1), "H2S": (0, 0.1), "CO2": (0, 0.1)}, seed=ctx.seed, npoints=6)   # "all maximum pressures": rows far beyond the default 14000 psia grid (p_r > 30) included
                     if v.status != be.PROVED:
                         v.detail = f"[{dry}] column {cname} at row j is not {target.split(':')[1]}(T, p_j, Sutton point…): " + v.detail
                         return with_models(v, o, su)
@@ -322,15 +322,16 @@ def build(ctx):
         gasm = __import__("bluebonnet.fluids.gas", fromlist=["x"])
         for gv, dry in (({"N2": 0.03, "H2S": 0.012, "CO2": 0.018, "Gas Specific Gravity": 0.65, "Reservoir Temperature (deg F)": 180.0}, "dry gas"),
                         ({"N2": 0.05, "H2S": 0.01, "CO2": 0.04, "Gas Specific Gravity": 0.8, "Reservoir Temperature (deg F)": 250.0}, "wet gas")):
-            df = f(gv, dry, 1500.0)
+          for mp_ in (1500.0, 26000.0):   # a short table and one far beyond the default grid (reduced pressures above 30)
+            df = f(gv, dry, mp_)
             Tc, Pc = gasm.pseudocritical_point_Sutton(gv["Gas Specific Gravity"], gasm.make_nonhydrocarbon_properties(gv["N2"], gv["H2S"], gv["CO2"]), dry)
             T_, g_ = gv["Reservoir Temperature (deg F)"], gv["Gas Specific Gravity"]
-            for k in (0, 7, 80, len(df) - 1):
-                pk = float(df["pressure"].iloc[k])
-                want = {"z-factor": gasm.z_factor_DAK(T_, pk, Tc, Pc), "Density": gasm.density_DAK(T_, pk, Tc, Pc, g_), "viscosity": gasm.viscosity_Sutton(T_, pk, Tc, Pc, g_), "compressibility": gasm.compressibility_DAK(T_, pk, Tc, Pc), "temperature": T_}
-                for c, wv in want.items():
-                    if not close(float(df[c].iloc[k]), wv, 1e-10):
-                        return {"reproduced": True, "input": {"gas_values": gv, "dryness": dry, "row": k, "pressure": pk, "column": c}, "observed": float(df[c].iloc[k]), "required": float(wv)}
+            for k in sorted({0, 7, 80, len(df) // 2, len(df) - 300 if len(df) > 400 else 1, len(df) - 1}):
+                  pk = float(df["pressure"].iloc[k])
+                  want = {"z-factor": gasm.z_factor_DAK(T_, pk, Tc, Pc), "Density": gasm.density_DAK(T_, pk, Tc, Pc, g_), "viscosity": gasm.viscosity_Sutton(T_, pk, Tc, Pc, g_), "compressibility": gasm.compressibility_DAK(T_, pk, Tc, Pc), "temperature": T_}
+                  for c, wv in want.items():
+                      if not close(float(df[c].iloc[k]), wv, 1e-10):
+                          return {"reproduced": True, "input": {"gas_values": gv, "dryness": dry, "row": k, "pressure": pk, "column": c}, "observed": float(df[c].iloc[k]), "required": float(wv)}
         return {"reproduced": False}
 
     obs.append(Obligation("pvt.rows", "build_pvt_gas: z-factor, Density, viscosity, compressibility at row j == the stand-alone correlations at (T, p_j, T_pc, p_pc[, gamma]) with the Sutton point of the supplied composition; temperature column == T", rows,
